@@ -167,8 +167,9 @@ let () = iter_lines (fun line ->
         let v = parse_gval () in
         let s0 = mk_struct (List.init (int_of_z db) (fun _ -> Z0)) (List.init (int_of_z pc) (fun _ -> PNull)) in
         show print_struct (insert_struct fuel sch id s0 v)
-      | "ext" ->
+      | ("ext" | "extf") as k ->
         let sch = get (next ()) in let id = next_z () in
+        if k = "extf" then ignore (next ());
         let s = parse_struct () in
         show print_gval (extract_struct fixed fuel sch id s)
       | "ext2" ->
